@@ -14,14 +14,12 @@ use core::ops::{Add, AddAssign, Sub, SubAssign};
 
 use crate::{
     errors::HifitimeError, Duration, Epoch, Polynomial, TimeScale, Unit, Weekday,
-    NANOSECONDS_PER_DAY,
+    DAYS_PER_CENTURY_I64, DAYS_PER_WEEK_I64, NANOSECONDS_PER_DAY,
 };
 
 #[cfg(not(feature = "std"))]
 #[allow(unused_imports)] // Import is indeed used.
 use num_traits::Float;
-
-use super::rem_euclid_f64;
 
 impl Epoch {
     /// Returns the minimum of the two epochs.
@@ -249,13 +247,13 @@ impl Epoch {
     /// You _probably_ do not want to use this. You probably either want `weekday()` or `weekday_utc()`.
     /// Several time scales do _not_ have a reference day that's on a Monday, e.g. BDT.
     pub fn weekday_in_time_scale(&self, time_scale: TimeScale) -> Weekday {
-        (rem_euclid_f64(
-            self.to_duration_in_time_scale(time_scale)
-                .to_unit(Unit::Day),
-            Weekday::DAYS_PER_WEEK,
-        )
-        .floor() as u8)
-            .into()
+        // Count the whole days with integers: a floating point number of days rounds the last
+        // nanoseconds of a day up to the next day. One century is exactly 36525 days and the
+        // nanoseconds always count forward into the century.
+        let (centuries, nanoseconds) = self.to_duration_in_time_scale(time_scale).to_parts();
+        let days = i64::from(centuries) * DAYS_PER_CENTURY_I64
+            + (nanoseconds / NANOSECONDS_PER_DAY) as i64;
+        (days.rem_euclid(DAYS_PER_WEEK_I64) as u8).into()
     }
 
     #[must_use]
